@@ -23,6 +23,7 @@
 #include <sys/personality.h>
 #include <sys/stat.h>
 #include <sys/syscall.h>
+#include <ucontext.h>
 #include <sys/wait.h>
 #include <time.h>
 #include <unistd.h>
@@ -145,6 +146,8 @@ static void enter_fair_mode() {
   for (int i = 0; i < W->nT; i++) W->T[i].stall_until = 0;
 }
 
+static int trace_fd = -2;
+static void trace_sched(int next, const int* cand, int nc, const int* cs, int ns, bool must_leave);
 // choose next thread; called by baton holder.  Returns when caller holds the baton again
 // (or never, if caller is DONE).
 static void reschedule(bool must_leave) {
@@ -227,12 +230,16 @@ static void reschedule(bool must_leave) {
     if (++W->allspin > lim && !anytimed)
       violation("liveness/deadlock", "engine.allspin", "deadlock/livelock: every runnable thread spins without any state change (%lu rounds) at step %lu", (unsigned long)W->allspin, (unsigned long)W->step);
   }
+  if (trace_fd != -1) trace_sched(next, cand, nc, cs, ns, must_leave);
   if (next != me) {
     W->switches++;
     int self = me;
+    // decided while still holding the baton: once `next` is awake it may change our state (a host's main thread marks the
+    // threads it leaves behind DONE when it exits), and a thread that then skipped park() would run outside the schedule
+    bool leave_for_good = T[self].st == DONE;
     W->cur = next;
     wake(next);
-    if (T[self].st != DONE) park(self);
+    if (!leave_for_good) park(self);
   }
 }
 
@@ -247,6 +254,30 @@ void wrote() {
 static std::map<uintptr_t, std::pair<uint32_t, int>>* locs;  // addr -> (id, last tid)
 static uint32_t nloc = 0;
 
+// debugging aid: VSIM_TRACE=<prefix> writes one line per decision point to <prefix>.<seed>.<host> (diff two runs of one seed)
+static void trace_open() {
+  const char* p = getenv("VSIM_TRACE");
+  if (!p) { trace_fd = -1; return; }
+  char b[400]; snprintf(b, sizeof b, "%s.%lu.%d", p, (unsigned long)W->seed, myhost);
+  trace_fd = (int)syscall(SYS_open, b, O_WRONLY | O_CREAT | O_TRUNC | O_APPEND, 0644);
+}
+static void trace_sched(int next, const int* cand, int nc, const int* cs, int ns, bool must_leave) {
+  if (trace_fd == -2) trace_open();
+  if (trace_fd < 0 || (next == me && nc + ns <= 1)) return;
+  char b[900]; int n = snprintf(b, sizeof b, "%lu S t%d->t%d%s run[", (unsigned long)W->step, me, next, must_leave ? " leave" : "");
+  for (int i = 0; i < nc && n < 800; i++) n += snprintf(b + n, sizeof b - n, "%d%s ", cand[i], W->T[cand[i]].stall_until > W->step ? "s" : "");
+  n += snprintf(b + n, sizeof b - n, "] spin[");
+  for (int i = 0; i < ns && n < 860; i++) n += snprintf(b + n, sizeof b - n, "%d ", cs[i]);
+  n += snprintf(b + n, sizeof b - n, "]\n");
+  syscall(SYS_write, trace_fd, b, n);
+}
+static void trace_op(int kind, const void* addr, uint32_t lid) {
+  if (trace_fd == -2) trace_open();
+  if (trace_fd < 0) return;
+  char b[120]; int n = snprintf(b, sizeof b, "%lu t%d k%d l%u %p\n", (unsigned long)W->step, me, kind, lid, addr);
+  syscall(SYS_write, trace_fd, b, n);
+}
+
 void pre(int kind, const void* addr) {
   World* w = W;
   w->step++;
@@ -259,6 +290,7 @@ void pre(int kind, const void* addr) {
     lid = it->second.first;
   }
   w->hash = (w->hash ^ ((uint64_t)me * 1315423911ull + (uint64_t)kind * 2654435761ull + lid)) * 1099511628211ull;
+  if (trace_fd != -1) trace_op(kind, addr, lid);
   w->T[me].last_addr = (uintptr_t)addr;
   if (w->step > w->budget1) {
     if (!w->fair_mode) enter_fair_mode();
@@ -433,4 +465,5 @@ void vsim_phase(const char* label) { snprintf(W->phase, sizeof W->phase, "%s", l
 #include "tsan_abi.inc"
 #include "pthread_ipose.inc"
 #include "env_ipose.inc"
+#include "alloc_ipose.inc"
 #include "runner_main.inc"
